@@ -589,6 +589,9 @@ func genEdit(c *simrt.Choices, u *Universe, g genCfg, snapshots []*Universe) (*U
 		for i, d := range s.Deps {
 			if _, isAlias := n.Aliases[d]; !isAlias {
 				al := fmt.Sprintf("//%s:r_%s_%d", s.Pkg, s.Name, i)
+				if strings.HasPrefix(d, ":") {
+					d = "//" + s.Pkg + d // the second spelling of a duplicate dependency: the alias names the target absolutely
+				}
 				n.Aliases[al] = d
 				s.Deps[i] = al
 				ed.Detail = al + " -> " + d
